@@ -62,7 +62,7 @@ def _task(t):
                 witness[name] = {"error": traceback.format_exc()[-800:]}
     return {"target": c.target, "contract": type(c).__name__, "case": c.case_name(case), "results": res, "undecided": out["undecided"],
             "errors": out["errors"], "paths": out["paths"], "assumptions": sorted(out["assumptions"]), "wall_s": out.get("wall_s", 0.0),
-            "source_hash": out.get("source_hash"), "covers": out.get("covers", 0), "witness": witness,
+            "source_hash": out.get("source_hash"), "exec_hash": out.get("exec_hash"), "covers": out.get("covers", 0), "witness": witness,
             "properties": list(c.properties), "level": getattr(c, "level", "proof")}
 
 
